@@ -30,3 +30,24 @@ Theorem C10_accepted_stored :
     Some (mkE (enc (ci_body i)) (ci_size i) (birth (w_cfg w) now) 0).
 Proof. exact C10w_accepted_stored. Qed.
 Print Assumptions C10_accepted_stored.
+
+(* the general forms (any limit, ttl, max_memory): what the store decision rejects leaves the cache
+   exactly as the lookup left it; what it accepts and fits is stored (see C09_ok_stored_under_limits,
+   the same theorem: store_decision covers cache_if, Result and the async flavour) *)
+From CL Require Import Base SeqModel Spec Inv Wrapper PfSurvive.
+Theorem C10_rejected_changes_nothing :
+  forall w now s i,
+    co_exec (snd (call w now s i)) = true -> store_decision w i = false ->
+    fst (call w now s i) = fst (get (w_cfg w) now (ci_key i) s).
+Proof. exact call_rejected_leaves_lookup_state. Qed.
+Print Assumptions C10_rejected_changes_nothing.
+
+Theorem C10_accepted_stored_under_limits :
+  forall w now s i,
+    wf_cfg (w_cfg w) = true -> InvA (w_cfg w) s ->
+    newest_safe (w_cfg w) = true -> fits (w_cfg w) (w_mem w) (ci_size i) = true ->
+    co_exec (snd (call w now s i)) = true -> store_decision w i = true ->
+    lookup (ci_key i) (st_store (fst (call w now s i))) =
+      Some (mkE (enc (ci_body i)) (ci_size i) (birth (w_cfg w) now) 0).
+Proof. exact call_stores_when_settled. Qed.
+Print Assumptions C10_accepted_stored_under_limits.
